@@ -5,6 +5,9 @@ import Driver.WrapH
 import Driver.CongH
 import Driver.FinH
 import Driver.ICH
+import Driver.WtoH
+import Driver.NumH
+import Driver.LinH
 
 /-!
   crabdrv : line-protocol driver.  Reads cases on stdin, one per line
@@ -27,6 +30,10 @@ def dispatch (comp op : String) (args res : List Sexp) : Verdict :=
   | "sgn" => handleSgn op args res
   | "bool" => handleBoolV op args res
   | "cst" => handleCst op args res
+  | "wto" => handleWto op args res
+  | "num" => handleNum op args res
+  | "safe" => handleSafe op args res
+  | "lin" => handleLin op args res
   | _ => .bad s!"unknown component {comp}"
 
 def handleLine (line : String) : Verdict :=
